@@ -1392,3 +1392,128 @@ def rule_t13(prog, rep, rid='T13', unit=None, node=None, primary=('root',)):
                               '%s (reached from %s) frees a node or moves a key between nodes (line %s) and the operation returns with the '
                               'remembered node %s.%s neither reset nor re-established: the next lookup compares against freed memory or a '
                               'node that now holds another key' % (where.name, f.name, lines.get(where.name), rec, fld))
+
+
+# --------------------------------------------------------------------------------------
+# T14 / T15 (added after seeded changes C04-14 and C04-15 were missed)
+
+_FULL_INT = ('int', 'long', 'long long', 'ssize_t', 'int32_t', 'int64_t', 'ptrdiff_t', 'intptr_t', 'signed int', 'signed long')
+
+
+def rule_t15(prog, rep, rid='T15'):
+    """The comparator returns an int of any magnitude (memcmp-style differences, user `a - b` orderings).  Whatever holds
+    its result - the variable it initialises or is assigned to, every variable that value is copied into, and the return type
+    of a wrapper - must be a signed type at least as wide as int: a narrower or unsigned holder changes the sign of large
+    results, and the search then goes to the wrong side only for keys that differ by a large byte."""
+    rep.rule(rid, 'the comparator\'s result is held at full width: every variable (or wrapper return type) that receives it, directly or '
+                  'by copy, is a signed integer at least as wide as int')
+    wr = comparator_wrappers(prog)
+
+    def full(t):
+        t = (t or '').replace('const ', '').replace('volatile ', '').strip()
+        return t in _FULL_INT
+
+    for f in sorted(prog.funcs_in(UNIT), key=lambda x: x.line or 0):
+        if f.body is None:
+            continue
+        calls = comparator_calls(prog, f)
+        if not calls:
+            continue
+        call_ids = {id(c) for (c, _a) in calls}
+        holders = {}           # name -> (decl type, line, how)
+
+        def is_cmp_value(e):
+            s = strip(e)
+            if id(s) in call_ids:
+                return 'the comparator call'
+            if s.get('kind') == 'DeclRefExpr' and canon(s) in holders:
+                return 'a copy of %s' % canon(s)
+            if s.get('kind') == 'ConditionalOperator':
+                return is_cmp_value(children(s)[1]) or is_cmp_value(children(s)[2])
+            if s.get('kind') == 'UnaryOperator' and s.get('opcode') == '-':
+                return is_cmp_value(children(s)[0])
+            return None
+        changed = True
+        rounds = 0
+        while changed and rounds < 6:
+            changed = False
+            rounds += 1
+            for x in walk(f.body):
+                nm = t = rhs = None
+                if x.get('kind') == 'VarDecl' and var_init(x) is not None:
+                    nm, t, rhs = x.get('name'), qtype(x), var_init(x)
+                elif x.get('kind') == 'BinaryOperator' and x.get('opcode') == '=':
+                    l = strip(children(x)[0])
+                    if l.get('kind') in ('DeclRefExpr', 'MemberExpr'):
+                        nm, t, rhs = canon(l), qtype(l), children(x)[1]
+                if nm is None or nm in holders:
+                    continue
+                how = is_cmp_value(rhs)
+                if how:
+                    holders[nm] = (t, x.get('_line'), how)
+                    changed = True
+        for nm, (t, line, how) in sorted(holders.items(), key=lambda kv: kv[1][1] or 0):
+            rep.instance(rid)
+            ok = full(t)
+            rep.oblige(rid, ok, {'function': f.name, 'holder': nm, 'type': t, 'receives': how})
+            if not ok:
+                rep.violation(rid, f, line, 'narrow:%s' % nm,
+                              '%s (%s) receives %s: the comparator returns a full int (byte differences, user orderings), and a result of '
+                              'magnitude >= 2^(width-1) changes sign when stored there - the search then takes the wrong side for keys that '
+                              'differ by a large byte only' % (nm, t, how))
+        if f.name in wr:
+            rep.instance(rid)
+            ok = full(f.rettype)
+            rep.oblige(rid, ok, {'function': f.name, 'wrapper_return_type': f.rettype})
+            if not ok:
+                rep.violation(rid, f, f.line, 'narrow-return', 'comparator wrapper %s returns %s: the sign of large results is lost' % (f.name, f.rettype))
+
+
+def rule_t14(prog, rep, rid='T14'):
+    """A function that records parent links while it descends, or climbs them, hands out / uses a position whose chain of
+    parent links up to the root must have been written in this very call.  That is only the case when the position was
+    reached by child steps from the table's root field.  A node pointer loaded from any other field of the table record
+    (a remembered match, a cached minimum) is a position the descent did not pass through: the links above it are whatever
+    earlier calls and rotations left."""
+    rep.rule(rid, 'in the functions that record or climb parent links, node positions are seeded from the root field only - no node pointer '
+                  'is loaded from another field of the table record (its parent-link chain was not written in this call)')
+    u = prog.unit(UNIT)
+
+    def node_typed(e):
+        t = (qtype(strip(e)) or '')
+        if not t.rstrip().endswith('*') or t.count('*') != 1:
+            return False
+        return u.resolve_typedef(t.replace('*', '').replace('const', '').replace('struct', '').strip())[0] == NODE
+    for f in sorted(prog.funcs_in(UNIT), key=lambda x: x.line or 0):
+        if f.body is None:
+            continue
+        links = False
+        for x in walk(f.body):
+            if x.get('kind') == 'BinaryOperator' and x.get('opcode') == '=':
+                l = canon(children(x)[0])
+                r = access_path(children(x)[1])
+                if r and (l == '%s->left->next' % r or l == '%s->right->next' % r):
+                    links = True
+                if r and l and r == '%s->next' % l:
+                    links = True
+        if not links:
+            continue
+        rep.instance(rid)
+        bad = None
+        par = _parents(f.body)
+        for x in walk(f.body):
+            if x.get('kind') == 'MemberExpr' and x.get('_field') and x['_field'][0] != NODE and x.get('name') != 'root' and node_typed(x):
+                p = par.get(id(x))
+                while p is not None and p.get('kind') in ('ImplicitCastExpr', 'ParenExpr', 'CStyleCastExpr'):
+                    p = par.get(id(p))
+                # a store to the field (remembering) is fine; loading it is the shortcut
+                if p is not None and p.get('kind') == 'BinaryOperator' and p.get('opcode') == '=' and strip(children(p)[0]) is x:
+                    continue
+                bad = x
+                break
+        rep.oblige(rid, bad is None, {'function': f.name})
+        if bad is not None:
+            rep.violation(rid, f, bad.get('_line'), 'seed:%s' % bad.get('name'),
+                          '%s takes a node position from %s instead of descending from the root: the parent links above that node were not '
+                          'written in this call (rotations since the field was set have changed the path), so the climb / the continued '
+                          'getnext walk follows stale links' % (f.name, canon(bad)))
